@@ -9,6 +9,7 @@
 //! parent finds the histories that did not finish, re-runs them one per process, and marks
 //! the ones that abort again with an `abort` event.
 mod explore;
+mod flow;
 mod gate;
 mod libcall;
 mod ops;
@@ -301,6 +302,26 @@ fn main() {
         "replay" => {
             let jobs = read_jobs(args.get(2).expect("scenario file"));
             parent(jobs, &out, chunks, threads);
+        }
+        "flow" => {
+            let path = args.get(2).expect("schedules file");
+            let file = std::fs::File::open(path).expect("open schedules file");
+            let mut f = std::io::BufWriter::new(std::fs::File::create(format!("{}.0.ndjson", out)).expect("create output"));
+            let mut n = 0;
+            for line in std::io::BufReader::new(file).lines() {
+                let line = line.unwrap();
+                if line.trim().is_empty() {
+                    continue;
+                }
+                let schedule: flow::FlowSchedule = serde_json::from_str(&line).expect("bad flow schedule");
+                for event in flow::run(&schedule) {
+                    serde_json::to_writer(&mut f, &event).unwrap();
+                    f.write_all(b"\n").unwrap();
+                }
+                n += 1;
+            }
+            f.flush().unwrap();
+            eprintln!("dvh: {} flow schedules", n);
         }
         "explore" => {
             let profile = arg_value(&args, "--profile").unwrap_or_else(|| "mixed".to_string());
